@@ -43,22 +43,28 @@ LEVEL_TEXT = ("Props/C11.lean (float syntax model, every feature set): complete_
               "('inf' radix 20, 'infinity' radix 30, 'nan^' radix 24), sep_i_hexfloat_prefix '1p1_a'. Props/C11Int.lean (integer "
               "model, complete): int_complete_iff_partial holds with no exclusion; int_partial_prefix holds iff a digit was consumed "
               "(int_partial_prefix_iff), witness '+a' -> (0,1) vs '+' -> Empty(1). Formats WITH separator flags on integer, fraction or "
-              "exponent (Props/C11Sep.lean): partial_prefix_sep_number / partial_prefix_sep_model_number prove the prefix relation "
-              "for number results for EVERY combination of the 14 separator predicates (or none) on the three digit components "
-              "- including I+T+C and I+L+C, whose known defects accept more but consistently before and after the cut - in the "
-              "release build, base suffix allowed, no base prefix, mantissa digits required, punctuation not colliding with the "
-              "separator (SepCfg; derived from format.is_valid + valid options + is_valid_options_punctuation by sepCfg_of_valid, "
-              "plus: separator is not the other ASCII case of the exponent / suffix character). Key lemma peek_trunc: a cut at the "
-              "returned count changes the look-ahead of a skip decision only from `some x` to end of input, all predicates are "
-              "monotone for that change (holds_weaken) unless they ask for a digit after the separator (i, il, ic, ilc@first), and "
-              "that digit is then consumed by the digit loop - EXCEPT in the exponent when mantissa_radix > exponent_radix: the "
-              "exact exclusion `digit-seeking exponent predicate => mantissa_radix <= exponent_radix` (SepCfg.digE), shown exact by "
+              "exponent (Props/C11Sep.lean): partial_prefix_sep (number AND special-value results; _number, _special, _model, "
+              "_model_number, partial_prefix_sep_full_partial) proves the prefix relation for EVERY combination of the 14 "
+              "separator predicates (or none) on the three digit components - including I+T+C and I+L+C, whose known defects "
+              "accept more but consistently before and after the cut - in the release build, base suffix allowed, no base "
+              "prefix, mantissa digits required, punctuation not colliding with the separator (SepCfg; derived from "
+              "format.is_valid + valid options + is_valid_options_punctuation by sepCfg_of_valid, plus: the separator is not the "
+              "other ASCII case of the exponent / suffix character). Key lemma peek_trunc: a cut at the returned count changes "
+              "the look-ahead of a skip decision only from `some x` to end of input, all predicates are monotone for that change "
+              "(holds_weaken) unless they ask for a digit after the separator (i, il, ic, ilc@first), and that digit is then "
+              "consumed by the digit loop - EXCEPT in the exponent when mantissa_radix > exponent_radix: the exact exclusion "
+              "`digit-seeking exponent predicate => mantissa_radix <= exponent_radix` (SepCfg.digE), shown exact by "
               "witness_sep_hex_i/_il/_ic ('1p1_a' -> (2.0,4), '1p1_' -> InvalidDigit; reproduced on the implementation: the open "
               "finding 'exponent is_digit uses the mantissa radix'). The count may stand after trailing separators a peek skipped "
               "('1__2__x' -> 6 with I+L+T+C); the many-digits re-parse is covered (ZerosMirror: skip_zeros repeats the peek "
-              "decisions of the first pass while the digits are zeros). Not proved (partial_prefix_sep_full): formats with a base "
-              "prefix AND separator flags, and special-value results of formats with a separator byte (exhaustive model search to "
-              "length 5-6 over all uniform decimal/hex separator formats, also with a base prefix, found no further violation).")
+              "decisions of the first pass while the digits are zeros). Special values: the special iterator is no-skip or skips "
+              "every separator run, parse_positive_special commutes with every cut at or behind its match for EVERY format "
+              "(parsePositiveSpecial_prefix), and the number parser fails on the cut buffer as on the whole one when no byte "
+              "matching a special head is a mantissa digit / the decimal point (SpecialHeadsOK, necessary) / the separator "
+              "('-_n_a__n__x' -> (NaN, 9) with special_digit_separator). Open (partial_prefix_sep_full): formats with a base "
+              "prefix AND a separator byte; a separator that is the other ASCII case of the exponent or suffix character or one "
+              "of I i N n (exhaustive model search to length 5-6 over all uniform decimal/hex separator formats, also with a "
+              "base prefix, found no violation besides the radix one).")
 LEVEL_NOTE = ("Trusted: Lean kernel; rustc; that the models mirror the Rust control flow (correspondence only). The integer parser with the "
               "`format` feature (prefix/suffix/separators/leading-zero flags) is modelled by Model.ParseIntFormat; Props/C04Format.lean proves "
               "clause 1 for formats without separator/prefix/suffix/leading-zero flag and decides the witnesses I3 (suffix '1+1'), I4 (prefix '0xg') on the model; "
